@@ -106,6 +106,57 @@ func (c *SpecCtx) resolveLocal(name string) (Val, bool) {
 	if fr == nil || c.at == nil {
 		return Val{}, false
 	}
+	if name == "loopvar" {
+		// role-based name (robust against renaming): the induction variable of the loop whose header is being
+		// evaluated = the one header phi the loop condition depends on
+		var phis []*ssa.Phi
+		for _, in := range c.at.Instrs {
+			if phi, ok := in.(*ssa.Phi); ok {
+				phis = append(phis, phi)
+			}
+		}
+		iff, _ := c.at.Instrs[len(c.at.Instrs)-1].(*ssa.If)
+		if iff == nil || len(phis) == 0 {
+			return Val{}, false
+		}
+		used := map[*ssa.Phi]bool{}
+		seen := map[ssa.Value]bool{}
+		var walk func(v ssa.Value, depth int)
+		walk = func(v ssa.Value, depth int) {
+			if v == nil || seen[v] || depth > 6 {
+				return
+			}
+			seen[v] = true
+			if p, ok := v.(*ssa.Phi); ok && p.Block() == c.at {
+				used[p] = true
+				return
+			}
+			if in, ok := v.(ssa.Instruction); ok && in.Block() == c.at {
+				for _, op := range in.Operands(nil) {
+					if *op != nil {
+						walk(*op, depth+1)
+					}
+				}
+			}
+		}
+		walk(iff.Cond, 0)
+		var only *ssa.Phi
+		for _, p := range phis {
+			if used[p] && p.Comment != "rangeindex" {
+				if only != nil {
+					return Val{}, false
+				}
+				only = p
+			}
+		}
+		if only == nil {
+			return Val{}, false
+		}
+		if v, ok := c.override[only]; ok {
+			return v, true
+		}
+		return fr.val(only), true
+	}
 	// a variable that lives in a memory cell (address-taken / captured by a closure) is always read through its
 	// cell in the current heap
 	for _, b := range fr.fn.Blocks {
